@@ -29,6 +29,12 @@ def sample(tag):
 
 def _prim(v):
     t = type(v)
+    if t is list:
+        return 'list'
+    if t is tuple:
+        return 'tuple'
+    if v is None:
+        return 'none'
     if t is bool:
         return 'bool'
     if t is int:
@@ -37,7 +43,7 @@ def _prim(v):
         return 'float'
     if t is str:
         return 'str'
-    raise Unsupported('nested value %r' % (v,))
+    raise Unsupported('value %r' % (v,))
 
 
 def tagof(v):
